@@ -90,6 +90,9 @@ type Ctx struct {
 	defs   []string // define-fun / define-fun-rec / axioms text emitted before everything
 	defined map[string]bool // names defined in defs (not to be declared)
 	defUses map[string]bool // declared symbols used by defs
+	// distinct: pairs of terms known to differ in the query being built (the negative case of a contract
+	// `split a == b`); consulted by the read-over-write rule of Select.  Set and cleared by caseQueries only.
+	distinct map[[2]*Term]bool
 }
 
 func NewCtx() *Ctx {
@@ -679,6 +682,10 @@ func (c *Ctx) Select(arr, idx *Term) *Term {
 				a = a.Args[0]
 				continue
 			}
+			if len(c.distinct) > 0 && (c.distinct[[2]*Term{a.Args[1], idx}] || c.distinct[[2]*Term{idx, a.Args[1]}]) {
+				a = a.Args[0]
+				continue
+			}
 			if a.Args[1].Op == "const" && idx.Op == "const" && a.Args[1].Sort == RefSort {
 				n1, n2 := a.Args[1].Name, idx.Name
 				f1, f2 := strings.HasPrefix(n1, "new!"), strings.HasPrefix(n2, "new!")
@@ -756,7 +763,7 @@ func (c *Ctx) Subst(t *Term, m map[*Term]*Term) *Term {
 			}
 		}
 		var r *Term
-		if !changed {
+		if !changed && !(t.Op == "select" && len(c.distinct) > 0) {
 			r = t
 		} else {
 			r = c.rebuild(t, args)
